@@ -1,2 +1,2 @@
 SPECIFICATION TSpec
-INVARIANTS SReplies SPredicted SEcho SOther SPair SStage
+INVARIANTS SReplies SPredicted SEcho SOther SPair SStage SStorePre SStorePost SAnc
